@@ -1,0 +1,14 @@
+//go:build verif
+
+// Machine-checked contracts for package clientgen (read by /verif/govc as text).
+
+package clientgen
+
+//@ func (g *Generator) buildRPCMethodConfig(service *protogen.Service, method *protogen.Method) (r *rpcMethodConfig)
+//@   ensures r != nil
+//@   ensures verb: r.httpMethod == spec.verbOf(method)
+//@   ensures path: r.fullPath == spec.clientPath(service, method)
+//@   ensures vars: r.pathParams == spec.pathVars(method)
+//@   ensures query: r.queryParams == annotations.GetQueryParams(method.Input)
+//@   ensures body: r.hasBody <==> spec.isBodyVerb(spec.verbOf(method))
+//@   ensures names: r.methodName == method.GoName && r.serviceName == service.GoName
